@@ -413,7 +413,11 @@ def ipoker(h):
             elif a[0] == 'bet':
                 L.append(f'<action no="{no}" player="{p}" type="5" sum="{h.m(a[2])}" cards="" />')
             elif a[0] == 'raise':
-                L.append(f'<action no="{no}" player="{p}" type="23" sum="{h.m(a[2])}" cards="" />')
+                if h.hand_no % 2:
+                    L.append(f'<action no="{no}" player="{p}" type="23" sum="{h.m(a[2])}" cards="" />')
+                else:
+                    # the other raise record of the format: the amount added on top of the raiser's own bet of this round
+                    L.append(f'<action no="{no}" player="{p}" type="6" sum="{h.m(a[4])}" cards="" />')
         L.append('</round>')
     L += ['</game>', '</session>']
     return '\n'.join(L) + '\n'
